@@ -207,15 +207,16 @@ def install(reg):
         ("C03-1.0-without-keepalive-closes", "implies(self.version == '1.0' and connection != 'keep-alive', self.close_on_finish)"),
         ("C03-1.1-connection-close-closes", "implies(self.version == '1.1' and connection == 'close', self.close_on_finish)"),
         ("C03-close-decision-kept", "implies(old(self.close_on_finish), self.close_on_finish)"),
-        ("C01-F7-parser-close-decision-honoured", "implies(must_close, self.close_on_finish)"),
+        ("C01-F7-parser-close-decision-honoured", "implies(self.request.connection_close, self.close_on_finish)"),
     ]
     LOCALS = {"must_close": Bool, "version": Str, "connection": Str, "content_length_header": Opt(Str), "date_header": Opt(Str), "server_header": Opt(Str)}
     HDR_LOCALS_OK = [("collected-header-values-have-no-cr-lf", "no_crlf(content_length_header) and no_crlf(date_header) and no_crlf(server_header)"),
                      ("version-local", "version == self.version"), ("must-close-is-the-parsers-decision", "must_close == self.request.connection_close")]
 
     def as_final(text):
-        for nm in ("content_length_header", "connection", "must_close"):
-            text = text.replace(nm, "final('%s')" % nm)
+        import re
+        for nm in ("content_length_header", "connection"):
+            text = re.sub(r"(?<![.\w])%s(?!\w)" % nm, "final('%s')" % nm, text)
         return text
     brh = reg.add(FuncContract(T + ".build_response_header", returns=Bytes, requires=[IDENT], raises=["UnicodeEncodeError"],
         ensures=[(n, as_final(t)) for n, t in FCL],
@@ -223,10 +224,11 @@ def install(reg):
                            types={"response_headers": ListOf(TupleOf(Str, Str)), "content_length_header": Opt(Str), "date_header": Opt(Str), "server_header": Opt(Str)})},
         modifies=["self.response_headers", "self.close_on_finish", "self.chunked_response"]))
     brh.unreachable_ok = ('raise AssertionError("neither HTTP/1.0 or HTTP/1.1")',)
+    # `must_close` is a helper local of the current code (it caches request.connection_close); no property clause mentions it
     brh.cuts = [
-        Cut('if version == "1.0":', HDR_LOCALS_OK + [("flags-untouched-so-far", "self.chunked_response == old(self.chunked_response) and self.close_on_finish == old(self.close_on_finish)")], LOCALS),
-        Cut("ident = self.channel.server.adj.ident", HDR_LOCALS_OK + FCL, LOCALS),
-        Cut("first_line = f", FCL, LOCALS),
+        Cut('if version == "1.0":', HDR_LOCALS_OK + [("flags-untouched-so-far", "self.chunked_response == old(self.chunked_response) and self.close_on_finish == old(self.close_on_finish)")], LOCALS, optional=["must_close"]),
+        Cut("ident = self.channel.server.adj.ident", HDR_LOCALS_OK + FCL, LOCALS, optional=["must_close"]),
+        Cut("first_line = f", FCL, LOCALS, optional=["must_close"]),
     ]
 
 
